@@ -490,6 +490,17 @@ theorem graph_to_stabilizer_is_graph_state (n : Nat) (adj : Adj) (hsym : ∀ i j
     (hirr : ∀ i, i < n → adj i i = false) : Hilbert.rho n (graphSTab n adj) = graphStateMat n adj :=
   rho_graphSTab n adj hsym hirr
 
+/-- **graph → density matrix produces the graph state, as a matrix** (every n, every simple graph): `_graph_to_density_pure` —
+    `create_n_plus_state(n)` (the matrix with all entries `2⁻ⁿ`: `plusMat`, which is the density matrix of the generators `X_i`:
+    `rho_plusSTab`) conjugated by one CZ per edge of `list(graph.edges)` — is `|G⟩⟨G|`, the same matrix as the density matrix of
+    `graph_to_stabilizer(G)` -/
+theorem graph_to_density_is_graph_state (n : Nat) (adj : Adj) (hsym : ∀ i j, i < n → j < n → adj i j = adj j i)
+    (hirr : ∀ i, i < n → adj i i = false) :
+    Hilbert.circMat n ((S2G.edgesOf n adj).map fun e => Gate.CZ e.1 e.2) * plusMat n *
+        (Hilbert.circMat n ((S2G.edgesOf n adj).map fun e => Gate.CZ e.1 e.2)).conjTranspose = graphStateMat n adj ∧
+    graphStateMat n adj = Hilbert.rho n (graphSTab n adj) :=
+  ⟨graph_to_density_mat n adj hsym hirr, (rho_graphSTab n adj hsym hirr).symm⟩
+
 /-- **`state_to_graph`, completeness + soundness on Hilbert space** (every n ≥ 1, every stabilizer state): the modelled conversion
     returns `(G, gates)`, the gates are in range, and `U_gates ρ U_gates† = |G⟩⟨G|` — the returned single-qubit Clifford gates map the
     input state exactly (not only up to a global phase: these are density matrices) onto that graph's state -/
